@@ -4,7 +4,7 @@ f=$1; old=$2; new=$3; id=$4; tier=${5:-quick}
 cd /repo && git diff --quiet || { echo "repo dirty"; exit 3; }
 python3 - "$f" "$old" "$new" <<'PY'
 import sys,re
-f,old,new=sys.argv[1:4]
+f,old,new=sys.argv[1:4]; new=new.encode().decode('unicode_escape')
 s=open('/repo/'+f).read()
 n=len(re.findall(old,s,flags=re.S))
 if n!=1:
